@@ -157,6 +157,118 @@ def ref_override(t, kind):
     return go(t)
 
 
+def make_value_transformer(kind, node):
+    """A handler whose RESULT depends on the node it is given (rotate / increment style):
+    within one argument list the result for one item may equal the original value of a
+    sibling, which a transformer that places results by value instead of by position
+    gets wrong.  -> (transformer class, function on decoded leaves) or None"""
+    nodes = ref_preorder(node, [])
+    if kind == "Integer":
+        def f_int(v):
+            return str(int(v) + 1)
+
+        def handler(self, n):
+            return ast.Integer(f_int(n.val))
+        return type("Succ_Integer", (V.NodeTransformer,), {"visit_Integer": handler}), f_int
+    if kind in ("String", "Identifier"):
+        attr = "val" if kind == "String" else "name"
+        vals = sorted({getattr(n, attr) for n in nodes if type(n).__name__ == kind})
+        if len(vals) < 2:
+            return None
+        rot = {v: vals[(i + 1) % len(vals)] for i, v in enumerate(vals)}
+        if kind == "String":
+            def handler(self, n):
+                return ast.String(rot[n.val])
+        else:
+            def handler(self, n):
+                return ast.Identifier(rot[n.name], n.namespace)
+        return type("Rot_" + kind, (V.NodeTransformer,), {"visit_" + kind: handler}), rot.__getitem__
+    if kind == "Same":
+        # every handler returns the very node it was given
+        def handler(self, n):
+            return n
+        return type("Same", (V.NodeTransformer,),
+                    {"visit_" + k: handler for k in ("Identifier", "Integer", "String")}), None
+    return None
+
+
+def ref_value_map(t, kind, f):
+    def go(n):
+        k = n[0]
+        if k == "id":
+            return ("id", f(n[1]), n[2]) if kind == "Identifier" else n
+        if k == "lit":
+            if kind == "Integer" and n[1] == "int":
+                return ("lit", "int", f(n[2]))
+            if kind == "String" and n[1] == "str":
+                return ("lit", "str", f(n[2]))
+            return n
+        if k == "attr":
+            return ("attr", go(n[1]), n[2])
+        if k == "list":
+            return ("list", tuple(go(x) for x in n[1]))
+        if k in ("bin", "cmp", "bool"):
+            return (k, n[1], go(n[2]), go(n[3]))
+        if k == "un":
+            return ("un", n[1], go(n[2]))
+        if k == "call":
+            name = n[1]
+            if kind == "Identifier":
+                *ns, last = name.split(".")
+                name = ".".join(ns + [f(last)])
+            return ("call", name, tuple(go(x) for x in n[2]))
+        if k == "np":
+            return ("np", go(n[1]), go(n[2]))
+        if k == "lam":
+            if n[4] is None:
+                return ("lam", go(n[1]), n[2], None, None)
+            var = f(n[3]) if kind == "Identifier" else n[3]
+            return ("lam", go(n[1]), n[2], var, go(n[4]))
+        raise ValueError(n)
+    return go(t)
+
+
+# trees in which sibling values collide under the rotate / increment handlers
+COLLISION_TEXTS = [
+    "concat(first, last) eq 'x'", "contains(last, first)", "n in (1, 2)", "n in (1, 2, 3, 4)",
+    "substring(first, 0, 1) eq 'a'", "my.f(a, b, c, a)", "x in ('a', 'b')", "x in ('b', 'a', 'c')",
+    "my.f((1, 2), (2, 3), 3)", "my.f(k=1, v=2)", "my.f(a=b, b=a)", "concat('a', 'b') eq concat('b', 'a')",
+    "hassubset((1, 2, 3), (3, 2, 1))", "my.f(1, 1, 2, 2, 3)", "my.f(a, a, b)", "my.g(b, my.g(a, b), a)",
+    "xs/any(a: my.f(a, b, xs))", "indexof(a, b) eq indexof(b, a)",
+]
+
+
+def judge_value_handlers(ctx, node, before, case, big):
+    for kd in ("Integer", "String", "Identifier", "Same"):
+        made = make_value_transformer(kd, node)
+        if made is None:
+            continue
+        trc, f = made
+        ctx.count("evaluations")
+        ctx.count("value_handlers")
+        try:
+            res = trc().visit(node)
+            got = decode(res)
+        except Exception as ex:
+            ctx.fail(dict(case, handler=trc.__name__), "transformer with a value-dependent override raised",
+                     observed=repr(ex)[:200], cls="transform-value", sig=["tval-exc", kd])
+            return False
+        want_t = before if f is None else ref_value_map(before, kd, f)
+        if big:
+            ctx.seen([case["text"], "value-handler", kd])
+        if got != want_t:
+            ctx.fail(dict(case, handler=trc.__name__),
+                     "transformer did not put each handler result in the place of the node it was "
+                     "computed from", expected=want_t, observed=got, cls="transform-value",
+                     sig=["tval", kd])
+            return False
+        if decode(node) != before:
+            ctx.fail(dict(case, handler=trc.__name__), "transformer mutated its input",
+                     cls="transform-value", sig=["tval-mut"])
+            return False
+    return True
+
+
 def mutate_point(rng, t):
     """Single-point structural mutation of a term (guaranteed different term)."""
     from ..shrink import _positions, _replace_at
@@ -279,6 +391,10 @@ def judge_tree(ctx, t, rng, full):
                      sig=["tone-mut"])
             return
 
+    # 3b. value-dependent handlers (rotate / increment / identity) ---------------------------
+    if not judge_value_handlers(ctx, node, before, case, big):
+        return
+
     # 4. shipped visitors under M-immut (the monitor raises inside visit) ------------------
     for name, run_visitor in shipped.RUNNERS.items():
         ctx.count("evaluations")
@@ -362,6 +478,12 @@ def run(ctx):
     rng = ctx.rng("c16")
     o = fullgen.Opts()
     maxd = ctx.pick(5, 7)
+    for j, text in enumerate(COLLISION_TEXTS):
+        if ctx.mine(j):
+            o0 = drive.parse_term(text)
+            if o0[0] == "ok":
+                judge_tree(ctx, o0[1], rng, full=False)
+                ctx.cls("collision-trees")
     for i in range(ctx.pick(900, 16000)):
         if ctx.out_of_time():
             break
